@@ -70,10 +70,18 @@ def _run(c):
     x = sg.Tensor(np.array(c['x'], dtype=np.float64).astype(dt).reshape(c['shape']), requires_grad=True)
     g = sg.Tensor(np.array(c['g'], dtype=np.float64).astype(dt).reshape(c['gshape']))
     op = c['op']
-    if op in ('sigmoid', 'tanh', 'selu'): y = getattr(sg, op)(x)
-    elif op in ('softmax', 'log_softmax'): y = getattr(sg, op)(x, c['dim'])
-    elif op == 'cross_entropy': y = sg.cross_entropy(x, sg.Tensor(np.array(c['labels']), dtype=np.int8))
-    else: y = sg.binary_cross_entropy_with_logits(x, sg.Tensor(np.array(c['aux'], dtype=np.float64).astype(dt).reshape(c['ashape'])))
+    from synapgrad import nn
+    layer = (len(c['x']) + int(abs(c['x'][0]) * 8)) % 2 == 1          # the nn layer / loss class instead of the function
+    if op in ('sigmoid', 'tanh', 'selu'):
+        y = {'sigmoid': nn.Sigmoid, 'tanh': nn.Tanh, 'selu': nn.SELU}[op]()(x) if layer else getattr(sg, op)(x)
+    elif op in ('softmax', 'log_softmax'):
+        y = (nn.Softmax if op == 'softmax' else nn.LogSoftmax)(c['dim'])(x) if layer else getattr(sg, op)(x, c['dim'])
+    elif op == 'cross_entropy':
+        lab = sg.Tensor(np.array(c['labels']), dtype=np.int8)
+        y = nn.CrossEntropyLoss(reduction='none')(x, lab) if layer else sg.cross_entropy(x, lab)
+    else:
+        aux = sg.Tensor(np.array(c['aux'], dtype=np.float64).astype(dt).reshape(c['ashape']))
+        y = nn.BCEWithLogitsLoss(reduction='none')(x, aux) if layer else sg.binary_cross_entropy_with_logits(x, aux)
     y.backward(g)
     return y.data.astype(np.float64), x.grad.data.astype(np.float64)
 
